@@ -136,7 +136,7 @@ def fileio_new(eng, st, args, kwargs, line):
     eng.assume_tag("A-IO")
     fn = args[0]
     if not isinstance(fn, VFileName):
-        raise OutOfSubset(f"line {line}: io.FileIO on a non-stream file name")
+        return outfile_new(eng, st, args, kwargs, line)
     mode = kwargs.get("mode", args[1] if len(args) > 1 else VStr("r"))
     oid = eng.new_oid(st, {"fid": VInt(fn.idx), "pos": VInt(0), "closed": VBool(False), "mode": mode})
     return val(st, VObj(oid, "FileIO"))
@@ -402,3 +402,83 @@ def xs_object(eng, st):
         st.heap[XS_OBJ] = z3.Const("XS", z3.ArraySort(INT, REAL))
         st.hmeta[XS_OBJ] = {"kind": "real", "dtype": None}
     return XS_OBJ
+
+
+# ------------------------------------------------------------------ output file (writer side) ghost
+ITEMSIZE = {"u1": 1, "u2": 2, "f4": 4, "f8": 8, "i4": 4, "i8": 8, "b1": 1, "c8": 8}
+
+
+def outfile_new(eng, st, args, kwargs, line):
+    """io.FileIO(name, mode) on an output file: unbuffered, position always at the end of what was written.
+
+    Ghost: nbytes (data bytes appended by tofile), elems (the elements appended, in order), ebits (bits per
+    element on disk), hdr_writes / hdr_after_data (raw write() calls), seeks (any repositioning), mode."""
+    mode = kwargs.get("mode", args[1] if len(args) > 1 else VStr("r"))
+    cl = chunklist_new(eng, st, "real", None)
+    oid = eng.new_oid(st, {"mode": mode, "nbytes": VInt(0), "hdr_writes": VInt(0), "hdr_after_data": VBool(False),
+                           "seeks": VInt(0), "closed": VBool(False), "elems": cl, "ebits": VInt(0)})
+    return val(st, VObj(oid, "OutFile"))
+
+
+@model("OutFile.write")
+def out_write(eng, st, args, kwargs, line):
+    eng.assume_tag("A-IO")
+    f = st.objs[args[0].oid]
+    f["hdr_after_data"] = VBool(z3.Or(eng.to_bool(f["hdr_after_data"]), f["nbytes"].t > 0))
+    f["hdr_writes"] = VInt(f["hdr_writes"].t + 1)
+    return val(st, VInt(smt.fresh("nwritten")))
+
+
+@model("OutFile.seek", "OutFile.truncate")
+def out_seek(eng, st, args, kwargs, line):
+    f = st.objs[args[0].oid]
+    f["seeks"] = VInt(f["seeks"].t + 1)
+    return val(st, VInt(smt.fresh("pos")))
+
+
+@model("OutFile.close")
+def out_close(eng, st, args, kwargs, line):
+    st.objs[args[0].oid]["closed"] = VBool(True)
+    return val(st, NONE)
+
+
+@model("OutFile.tell")
+def out_tell(eng, st, args, kwargs, line):
+    return val(st, VInt(smt.fresh("pos")))
+
+
+@model("arrmethod.tofile")
+def arr_tofile(eng, st, args, kwargs, line):
+    """ndarray.tofile(f): appends arr.size * arr.itemsize bytes at the descriptor position (A-NP, A-IO)."""
+    eng.assume_tag("A-NP")
+    eng.assume_tag("A-IO")
+    a, fo = args[0], args[1]
+    if not (isinstance(fo, VObj) and fo.cls == "OutFile"):
+        raise OutOfSubset(f"line {line}: tofile target {fo!r}")
+    if not isinstance(a, VArr):
+        raise OutOfSubset(f"line {line}: tofile of {a!r}")
+    f = st.objs[fo.oid]
+    dt = st.hmeta[a.obj].get("dtype")
+    if dt not in ITEMSIZE:
+        raise OutOfSubset(f"line {line}: tofile of an array of unknown dtype")
+    isz = ITEMSIZE[dt]
+    f["nbytes"] = VInt(smt.som(f["nbytes"].t + isz * a.n))
+    f["ebits"] = VInt(z3.If(f["ebits"].t == 0, z3.IntVal(8 * isz), z3.If(f["ebits"].t == 8 * isz, f["ebits"].t, z3.IntVal(-1))))
+    f["last_dtype"] = VStr(dt)
+    # elements appended (as numbers)
+    cl = st.objs[f["elems"].oid]
+    old = st.heap[cl["obj"]]
+    n = cl["n"].t
+    j = z3.Int("j!tf")
+    el = z3.Select(st.heap[a.obj], eng.arr_index_term(a, j - n))
+    kind = st.hmeta[a.obj]["kind"]
+    if kind == "bv8":
+        el = z3.ToReal(z3.BV2Int(el, False))
+    elif kind == "int":
+        el = z3.ToReal(el)
+    elif kind == "bool":
+        el = z3.If(el, z3.RealVal(1), z3.RealVal(0))
+    st.heap[cl["obj"]] = z3.Lambda([j], z3.If(j < n, z3.Select(old, j), el))
+    cl["n"] = VInt(smt.som(n + a.n))
+    cl["fresh"] = False
+    return val(st, NONE)
